@@ -11,3 +11,6 @@ package ast
 
 //@ func NewBinExpr
 //@   assumed A-int: allocates binary expression nodes
+
+//@ func (Node).Pos
+//@   assumed A-int: position of a node; reads only
